@@ -825,6 +825,18 @@ def list_method(eng, world, lst, m, args, kwargs, node):
                 del lst.items[i]
                 return NONE
         eng.raise_("ValueError", site=node.lineno)
+    if m == "remove" and not lst.concrete():
+        # removal from a symbolic list: one element fewer (or ValueError when absent); which one is not tracked
+        eng.assumptions_used.add("list.remove(x) on a symbolic list: the result has one element fewer and contains only elements of the original list (positions not tracked)")
+        absent = eng.branch_fresh("list_remove_absent")
+        if absent and not (eng.contract and eng.contract.opts.get("remove_present")):
+            eng.raise_("ValueError", site=node.lineno)
+        if absent:
+            raise PathEnd()
+        fresh = eng.symlist(z3.simplify(zint(lst.n) - 1), lst.elemty or "obj:GopherEntry", "after_remove")
+        eng.assume(zint(lst.n) >= 1)
+        lst.n, lst.get = fresh.n, fresh.get
+        return NONE
     if m == "pop" and lst.concrete() and not args:
         if not lst.items:
             eng.raise_("IndexError", site=node.lineno)
@@ -884,6 +896,25 @@ def dict_method(eng, world, d, m, args, kwargs, node):
         if d.sym is None and not d.overrides:
             return VList([VStr(k) if isinstance(k, str) else VInt(k) for k in d.items])
         if getattr(d, "keylist", None) is not None:
+            return d.keylist
+        if d.sym is not None and not d.overrides and not d.items:
+            # keys of a symbolic dict: some list of strings, each of which is a key
+            name = d.sym[0]
+            n = z3.Int(eng.fresh_name("nkeys_" + name))
+            eng.assume(n >= 0)
+            kf = sfun("dict_key_" + name, INT, STR)
+            hasf = sfun("dict_has_" + name, STR, BOOL)
+            seen = set()
+
+            def get(i):
+                k = kf(zint(i))
+                key = z3.simplify(zint(i)).sexpr()
+                if key not in seen:
+                    seen.add(key)
+                    eng.assume(hasf(k))
+                return VStr(k)
+
+            d.keylist = VList(None, n, get, "str")
             return d.keylist
         raise OutOfSubset("keys() of symbolic dict")
     if m == "items":
